@@ -320,8 +320,14 @@ def runEndOk (re : ArrayData) (rw : Nat) (j : Nat) : Bool :=
 def lastRunEnd (re : ArrayData) (rw : Nat) : Option Int :=
   if re.len = 0 then some 0 else runEndAt re rw (re.len - 1)
 
+/-- `p i && p (i+1) && … ` for `f` consecutive indices (stops at the first failure and never
+materialises the index list, so it is usable with astronomically large `f`) -/
+def allFrom (p : Nat → Bool) : Nat → Nat → Bool
+  | _, 0 => true
+  | i, f + 1 => p i && allFrom p (i + 1) f
+
 /-- all `n` slots `0..n` satisfy `p` -/
-def allBelow (n : Nat) (p : Nat → Bool) : Bool := (List.range n).all p
+def allBelow (n : Nat) (p : Nat → Bool) : Bool := allFrom p 0 n
 
 /-- non-nullable child rule for struct / fixed-size list: parent slot `i` valid ⇒ the
 `k` child slots `(offset+i)·k … (offset+i)·k + k-1` are valid -/
